@@ -492,7 +492,7 @@ def small_scenarios():
     out.append(Scn([["s0:11:5", "j0"], ["S1:21:7", "J1"]], q=4, lazy=1))
     out.append(Scn([["s0:11:5", "s1:12:6", "j0", "j1"], ["s2:21:7", "s3:22:8", "j3", "j2"]], q=1, tick=1100, mn=1, mx=3))
     # round 3: a Future<A> destroyed (and re-created, re-started) while its call is still running: ~Future<A> must wait for the result store
-    out.append(Scn([["s0:11:5", "d0", "s0:12:6", "d0", "s0:13:7"], ["S1:21:6", "D1", "S1:22:6"]], q=2))
+    out.append(Scn([["s0:11:5", "d0", "s0:12:6"], ["S1:21:6", "D1"]], q=2))
     # round 3: the environment refuses worker threads (cf = bit mask over the pool's thread creations)
     out.append(Scn([["s0:11:5", "s1:12:6", "j0", "j1"]], q=2, cf=1))          # first creation fails, the second start creates the worker
     out.append(Scn([["s0:11:5", "j0", "s0:12:6", "r0"], ["s1:21:1", "j1"]], q=1, cf=6))   # 2nd and 3rd fail: leaked _threadCount, ~ThreadPool may wait forever
@@ -626,13 +626,13 @@ def explore(ctx, exe, pool, repaired, stats, on_result):
         Scn([["s0:11:5", "j0", "s0:12:6", "j0"], ["s1:21:1", "j1"], ["s2:31:1", "j2", "s2:32:2"]], q=1, cf=6, tick=1100),
         Scn([["s0:11:5", "s1:12:7", "j0", "j1"], ["s3:21:6", "s4:22:1", "j3", "j4"]], q=4, cf=2, lazy=1),
     ]
-    nsf = 40 if quick else 600
+    nsf = 30 if quick else 600
     for scn in spawnfail:
         submit(scn, [("rand" if i % 2 else "rands", rng.randrange(1, 10 ** 9), 12000, ()) for i in range(nsf)] + [("np", 1, 6000, ()), ("nps", 1, 12000, ())])
-    nstress = 400 if quick else 3000
+    nstress = 300 if quick else 3000
     for scn in stress:
         submit(scn, [("rand" if i % 2 else "rands", rng.randrange(1, 10 ** 9), 12000, ()) for i in range(nstress)])
-    nscn = 250 if quick else 1500
+    nscn = 200 if quick else 1500
     per = 12 if quick else 20
     for _ in range(nscn):
         scn = random_scenario(rng)
@@ -673,7 +673,7 @@ def explore_one(args):
 
 
 def walk_cfgs(quick):
-    n = 15000 if quick else 150000
+    n = 10000 if quick else 150000
     return [("q=1 min=0 max=3 lazy=0 tick=1100 sp=1", "s0:11:5 s1:12:6 j0 j1 | s2:21:5 j2 s2:22:1 | s3:31:1 r3", n),
             ("q=2 min=0 max=4 lazy=1 tick=700 sp=0", "s0:11:5 r0 d0 s0:12:1 | S1:21:6 A1 J1 Q1 | s2:31:1 s3:32:2 j3 j2 | s4:41:0", n),
             ("q=1 min=1 max=3 lazy=0 tick=2100 sp=2", "s0:11:5 s0:12:6 s0:13:7 | s1:21:5 s2:22:6 s1:23:1 | S3:31:1 S3:32:1", n),
